@@ -69,6 +69,9 @@ def rule_graph_cut(model: Model):
                 r = model.resolve(f.module, n.func)
                 if r in ("torch.no_grad", "torch.set_grad_enabled", "torch.inference_mode"):
                     cuts.append((n, f"{r} disables gradient recording"))
+                elif r in ("copy.deepcopy", "copy.copy", "pickle.loads", "pickle.dumps"):
+                    cuts.append((n, f"{r} of a TT object / core re-creates its tensors: a tracked leaf becomes a new, disconnected leaf "
+                                    "(and deepcopy of a non-leaf tracked tensor raises)"))
                 elif r in ("torch.tensor", "torch.as_tensor", "torch.from_numpy") and n.args and not _literal(n.args[0]):
                     cuts.append((n, f"{r}(<computed data>) creates a new leaf: the value is disconnected from the operand cores"))
                 elif r in ("builtins.float", "builtins.int", "builtins.complex") and n.args and \
